@@ -959,12 +959,24 @@ class Flow(NLRI):
         Returns what is left of the payload.
         """
         end: int = 0
+        # RFC 8955 4.2.1.1 / 4.2.1.2: the reserved bits of an operator MUST be ignored on decoding
+        # and the AND bit of the first operator MUST be treated as unset; keeping them gave
+        # `port 0E80` for what is `port !=80`
+        meaning = CommonOperator.AND | (
+            BinaryOperator.NOT | BinaryOperator.MATCH
+            if getattr(klass, 'OPERATION', '') == 'binary'
+            else NumericOperator.LT | NumericOperator.GT | NumericOperator.EQ
+        )
+        first = True
         while not end:
             if not bgp:
                 raise Notify(3, 10, 'flow component %d ends without its end of list operator' % what)
             byte, bgp = bgp[0], bgp[1:]
             end = CommonOperator.eol(byte)
-            operator = CommonOperator.operator(byte)
+            operator = CommonOperator.operator(byte) & meaning
+            if first:
+                operator &= CommonOperator.AND ^ 0xFF
+                first = False
             length = CommonOperator.length(byte)
             # RFC 8955 section 4.2.1.1: the operator's length field says how many bytes the
             # value takes, and a sender may use any of the four. VALUE_SIZES says what this
